@@ -249,8 +249,11 @@ func main() {
 		reps = part1(r, true)
 		os.Setenv("VERIF_C05_REPS", string(reps))
 	}
+	// the NUL character is a lexical error of its own (not a class of the automata): it joins the representatives of
+	// the stream-level enumeration (it cannot travel through the environment, so it is added on both sides)
+	reps = append(reps, 0)
 	if r.Fork(16) {
-		r.Set("rule", "part 1: every reachable (scanner state, documented state) pair x all 1,114,112 code points; part 2: every text up to the length bound over one representative per symbol class (classes induced by both automata, refined by newline-ness and UTF-8 length), each with and without a final newline, plus curated near-misses (a NUL character among them) in every gap of a token sequence, plus tokens of every kind with 4094 ... 20000 characters; non-trivial = text yields >= 1 token or an error; distinct by text")
+		r.Set("rule", "part 1: every reachable (scanner state, documented state) pair x all 1,114,112 code points; part 2: every text up to the length bound over one representative per symbol class (classes induced by both automata, refined by newline-ness and UTF-8 length) and the NUL character, each with and without a final newline, plus curated near-misses (a NUL character among them) in every gap of a token sequence, plus tokens of every kind with 4094 ... 20000 characters; non-trivial = text yields >= 1 token or an error; distinct by text")
 		r.Set("evaluations", r.Get("texts"))
 		r.Set("traces_validated_against_impl", r.Get("texts"))
 		r.Finish()
@@ -350,6 +353,6 @@ func main() {
 		}
 	}
 	r.Assume("the reference automaton is the listing in docs/6-design.md with kinds from the token table of docs/5-definitions.md, corrected so that a /* */ comment ends at the first */ as the property states; a single capital letter is a lexical error as in that listing")
-	r.Assume("texts contain no invalid UTF-8 (the reader's own error, outside this property); a NUL character is covered by the near-miss family only (it is not one of the enumerated representatives)")
+	r.Assume("texts contain no invalid UTF-8 (the reader's own error, outside this property); a NUL character is one of the enumerated representatives and part of the near-miss family")
 	r.Finish()
 }
